@@ -18,6 +18,7 @@ limitations under the License.
 package gogen
 
 import (
+	"fmt"
 	"go/ast"
 	"go/token"
 	"go/types"
@@ -779,9 +780,12 @@ func variadicFlag(sig *types.Signature) InstrFlags {
 
 func instanceInferFunc(pkg *Package, arg *internal.Elem, tsig *inferFuncType, sig *types.Signature) error {
 	args := paramsToArgs(sig)
-	targs, _, err := inferFunc(tsig.pkg, tsig.fn, tsig.typ, tsig.targs, args, variadicFlag(sig))
+	targs, typ, err := inferFunc(tsig.pkg, tsig.fn, tsig.typ, tsig.targs, args, variadicFlag(sig))
 	if err != nil {
 		return err
+	}
+	if !types.Identical(typ, sig) {
+		return fmt.Errorf("inferred type %v for %v does not match type %v", typ, tsig.typ, sig)
 	}
 	arg.Type = sig
 	index := make([]ast.Expr, len(targs))
@@ -804,9 +808,12 @@ func instanceInferFunc(pkg *Package, arg *internal.Elem, tsig *inferFuncType, si
 
 func instanceFunc(pkg *Package, arg *internal.Elem, tsig *types.Signature, sig *types.Signature) error {
 	args := paramsToArgs(sig)
-	targs, _, err := inferFunc(pkg, &internal.Elem{Val: arg.Val}, tsig, nil, args, variadicFlag(sig))
+	targs, typ, err := inferFunc(pkg, &internal.Elem{Val: arg.Val}, tsig, nil, args, variadicFlag(sig))
 	if err != nil {
 		return err
+	}
+	if !types.Identical(typ, sig) {
+		return fmt.Errorf("inferred type %v for %v does not match type %v", typ, tsig, sig)
 	}
 	arg.Type = sig
 	if len(targs) == 1 {
